@@ -203,7 +203,12 @@ func (t *tailBuf) String() string {
 	return string(t.head) + string(t.b)
 }
 
+var raceMode bool
+
 func startWorker(bin string, extraEnv ...string) *worker {
+	if raceMode {
+		extraEnv = append(extraEnv, "VERIF_RACE=1", "GORACE=halt_on_error=1")
+	}
 	w := &worker{bin: bin}
 	w.cmd = exec.Command(bin, "-test.run", "^TestWorker$", "-test.cpu", "1", "-test.timeout", "24h")
 	w.cmd.Env = append(os.Environ(), "VERIF_SCEN=jobs", "VERIF_JOBS=1", "GOMAXPROCS=1", "GOTRACEBACK=all")
@@ -311,6 +316,73 @@ func crashViolation(prop string, r Result) (Violation, bool) {
 		if strings.Contains(first, "verif/scen.encodeService") || strings.Contains(first, "verif/refcodec.") || strings.Contains(first, "verif/scen.(*rawSrvConn)") {
 			return Violation{}, false
 		}
+	}
+	if i := strings.Index(out, "WARNING: DATA RACE"); i >= 0 {
+		rep := out[i:]
+		if j := strings.Index(rep, "=================="); j > 0 {
+			rep = rep[:j]
+		}
+		// the two access stacks start with "<Access> at 0x... by goroutine N:"
+		var tops []string
+		var writes []bool
+		lines := strings.Split(rep, "\n")
+		for i := 0; i < len(lines); i++ {
+			ln := strings.TrimSpace(lines[i])
+			if !(strings.Contains(ln, " at 0x") && strings.Contains(ln, " by ")) {
+				continue
+			}
+			writes = append(writes, strings.Contains(strings.ToLower(ln), "write"))
+			top := ""
+			for j := i + 1; j < len(lines); j++ {
+				f := strings.TrimSpace(lines[j])
+				if f == "" {
+					break
+				}
+				if strings.HasPrefix(f, "github.com/gopcua/opcua") && !strings.Contains(f, "/simhook.") {
+					top = strings.TrimPrefix(strings.TrimSuffix(f, "()"), "github.com/gopcua/opcua")
+					top = strings.TrimPrefix(top, "/")
+					break
+				}
+			}
+			tops = append(tops, top)
+		}
+		var repo []string
+		for _, t := range tops {
+			if t != "" {
+				repo = append(repo, t)
+			}
+		}
+		if len(repo) == 0 {
+			return Violation{}, false // a race inside the harness: harness trouble
+		}
+		for len(tops) < 2 {
+			tops = append(tops, "")
+		}
+		for i, t := range tops {
+			if t == "" {
+				tops[i] = "(harness or runtime frame)"
+			}
+		}
+		for len(writes) < 2 {
+			writes = append(writes, false)
+		}
+		// the class is the writing site (several read sites race with the same
+		// write); two writes give a sorted pair
+		var sig string
+		switch {
+		case writes[0] && !writes[1]:
+			sig = "write in " + tops[0]
+		case writes[1] && !writes[0]:
+			sig = "write in " + tops[1]
+		default:
+			pair := append([]string(nil), tops[:2]...)
+			sort.Strings(pair)
+			sig = "writes in " + pair[0] + " and " + pair[1]
+		}
+		if len(rep) > 6000 {
+			rep = rep[:6000]
+		}
+		return Violation{Property: prop, Kind: "race", Sig: sig, Detail: "racing accesses: " + tops[0] + " / " + tops[1] + "\n" + rep}, true
 	}
 	m := panicRe.FindString(out)
 	if m == "" {
@@ -427,6 +499,7 @@ func main() {
 			needRace = true
 		}
 	}
+	raceMode = needRace
 	bin := build(id, needRace)
 
 	if *replay != "" {
@@ -699,9 +772,14 @@ func main() {
 			job.PlanTape, job.SchedTape = nil, nil
 		}
 		confirmed := false
-		if !*nomin {
+		switch {
+		case raceMode:
+			// a report of the race detector is definitive; race mode does not
+			// promise that the same seed shows it again (DESIGN 4.7)
+			confirmed = true
+		case !*nomin:
 			job, confirmed = minimise(bin, job)
-		} else {
+		default:
 			confirmed = confirm(bin, job)
 		}
 		path := filepath.Join(verifDir, "replays", fmt.Sprintf("%s-%s-%d.json", ci.viol.Property, ci.first.Scenario, ci.first.Seed))
